@@ -9,9 +9,11 @@
 //! allowed) or Err(FactoringFailure); no panic/abort; return within DELTA after the first
 //! `true`.
 
+use serde::{Deserialize, Serialize};
 use serde_json::{json, Value};
 
-use crate::engine::{Ctx, Fail, Local, PropDef};
+use crate::engine::{catch, Ctx, Fail, Local, PanicInfo, PropDef};
+use crate::props::c18::{strategy_big, ClsCase};
 use crate::oracle::int::{certified_prime, SplitMix, U1024};
 use crate::props::factoring::*;
 use crate::worker::{run_jobs, JobResult};
@@ -155,6 +157,247 @@ fn judge_batch(ctx: &Ctx, runs: &[Run], watchdog: f64, l: &mut Local, long: bool
     }
 }
 
+
+// ---------------------------------------------------------------------------
+// Class-group entry point (src/classgroup.rs is among the anchors of the property: its sieve polls the same
+// predicate, per A value and per worker closure, and its declared answer to an abort is `None`).
+//
+// Oracle (sound for every schedule): once the monotone predicate has returned `true` to the library at least
+// once, the sieve loops end and the check that follows them sees `true` again, so the call must come back
+// without a panic and within DELTA.  Nothing is demanded of runs in which the predicate never fired (the flip
+// instant lay behind the last poll), and a returned group is not judged here (C18 does that).
+
+#[derive(Clone, Debug, Serialize, Deserialize)]
+struct ClsAbortCase {
+    cls: ClsCase,
+    /// |D| in decimal (derived from `cls`; kept for the reader of a replay file)
+    dabs: String,
+    /// the predicate returns true from its k-th poll onward; None = never (calibration)
+    k: Option<u64>,
+}
+
+enum ClsOutcome {
+    Group,
+    None,
+    Panic(PanicInfo),
+    Hang,
+}
+
+struct ClsRun {
+    outcome: ClsOutcome,
+    polls: u64,
+    /// time between the first `true` and the return of the call
+    lat_ms: Option<f64>,
+}
+
+const CLS_WATCHDOG_S: u64 = 150;
+
+fn cls_call(dabs: u128, threads: Option<usize>, use_double: Option<bool>, k: Option<u64>) -> ClsRun {
+    use std::sync::atomic::{AtomicBool, AtomicU64, Ordering};
+    use std::sync::{mpsc, Arc, Mutex};
+    use std::time::{Duration, Instant};
+    let polls = Arc::new(AtomicU64::new(0));
+    let first_true: Arc<Mutex<Option<Instant>>> = Arc::new(Mutex::new(None));
+    let give_up = Arc::new(AtomicBool::new(false));
+    let (tx, rx) = mpsc::channel();
+    let (p2, f2, g2) = (polls.clone(), first_true.clone(), give_up.clone());
+    let spawned = std::thread::Builder::new().name("c05-classgroup".into()).stack_size(8 << 20).spawn(move || {
+        use std::str::FromStr;
+        let pool = match threads {
+            None | Some(1) => None,
+            Some(t) => rayon::ThreadPoolBuilder::new().num_threads(t).build().ok(),
+        };
+        let d = yamaquasi::Int::from_str(&format!("-{}", dabs)).expect("decimal");
+        let mut prefs = yamaquasi::Preferences::default();
+        prefs.verbosity = yamaquasi::Verbosity::Silent;
+        prefs.threads = threads;
+        prefs.use_double = use_double;
+        let kk = k.unwrap_or(u64::MAX);
+        prefs.should_abort = Some(Box::new(move || {
+            let i = p2.fetch_add(1, Ordering::SeqCst);
+            if i >= kk {
+                let mut g = f2.lock().unwrap();
+                if g.is_none() {
+                    *g = Some(Instant::now());
+                }
+                true
+            } else {
+                // lets a stuck sieve loop end after the watchdog has given the verdict
+                g2.load(Ordering::Relaxed)
+            }
+        }));
+        let r = catch(|| yamaquasi::classgroup::classgroup(&d, &prefs, pool.as_ref()).is_some());
+        let _ = tx.send((r, Instant::now()));
+    });
+    if spawned.is_err() {
+        return ClsRun { outcome: ClsOutcome::Hang, polls: 0, lat_ms: None };
+    }
+    match rx.recv_timeout(Duration::from_secs(CLS_WATCHDOG_S)) {
+        Ok((r, t_ret)) => {
+            let ft = *first_true.lock().unwrap();
+            ClsRun {
+                outcome: match r {
+                    Ok(true) => ClsOutcome::Group,
+                    Ok(false) => ClsOutcome::None,
+                    Err(p) => ClsOutcome::Panic(p),
+                },
+                polls: polls.load(Ordering::SeqCst),
+                lat_ms: ft.map(|t| t_ret.saturating_duration_since(t).as_secs_f64() * 1e3),
+            }
+        }
+        Err(_) => {
+            give_up.store(true, Ordering::Relaxed);
+            let fired = first_true.lock().unwrap().is_some();
+            ClsRun { outcome: ClsOutcome::Hang, polls: polls.load(Ordering::SeqCst), lat_ms: if fired { Some(CLS_WATCHDOG_S as f64 * 1e3) } else { None } }
+        }
+    }
+}
+
+fn cls_slow(r: &ClsRun) -> bool {
+    r.lat_ms.map(|l| l > DELTA_S * 1e3).unwrap_or(false)
+}
+
+/// consistency part: a panic after the predicate fired
+fn cls_judge(c: &ClsAbortCase, r: &ClsRun) -> Result<(), Fail> {
+    if r.lat_ms.is_none() {
+        return Ok(());
+    }
+    if let ClsOutcome::Panic(p) = &r.outcome {
+        return Err(Fail::new(
+            format!("classgroup+abort|panic@{}", p.short_loc()),
+            format!(
+                "classgroup(-{}, threads={:?}) panicked at {} after the abort predicate had returned true (from poll {:?} on): {}",
+                c.dabs, c.cls.threads, p.short_loc(), c.k, p.msg
+            ),
+        ));
+    }
+    Ok(())
+}
+
+fn cls_latency_fail(c: &ClsAbortCase) -> Fail {
+    Fail::new(
+        "classgroup+abort|latency",
+        format!(
+            "classgroup(-{}, threads={:?}) did not return within {} s after the abort predicate became true at poll {:?} (3 runs, last two alone)",
+            c.dabs, c.cls.threads, DELTA_S, c.k
+        ),
+    )
+}
+
+fn cls_run_case(c: &ClsAbortCase) -> Option<ClsRun> {
+    let d = c.cls.dabs()?;
+    Some(cls_call(d, c.cls.threads, c.cls.use_double, c.k))
+}
+
+fn cls_abort(ctx: &Ctx, l: &mut Local) {
+    use std::sync::atomic::{AtomicUsize, Ordering};
+    use std::sync::Mutex;
+    let check = "abort-cls@opt";
+    let n = ctx.n(40, 600) as usize;
+    let mut cases: Vec<ClsCase> = ctx.sample_strategy(check, 0, &strategy_big(44, 104), n);
+    for (i, c) in cases.iter_mut().enumerate() {
+        c.threads = match i % 4 {
+            0 => None,
+            1 => Some(2),
+            _ => Some(4),
+        };
+    }
+    let mut rng = SplitMix(crate::engine::hash64(&(ctx.seed, "c05-cls-k")));
+    let seeds: Vec<u64> = cases.iter().map(|_| rng.next()).collect();
+    let next = AtomicUsize::new(0);
+    let out: Mutex<Vec<(ClsAbortCase, ClsRun, Option<u64>)>> = Mutex::new(vec![]);
+    std::thread::scope(|sc| {
+        for _ in 0..6 {
+            sc.spawn(|| loop {
+                let i = next.fetch_add(1, Ordering::SeqCst);
+                if i >= cases.len() {
+                    break;
+                }
+                let cls = cases[i].clone();
+                let Some(d) = cls.dabs() else { continue };
+                let mk = |k: Option<u64>| ClsAbortCase { cls: cls.clone(), dabs: d.to_string(), k };
+                // calibration: polls of an un-aborted run
+                let cal = cls_call(d, cls.threads, cls.use_double, None);
+                let p = cal.polls;
+                let cal_ok = matches!(cal.outcome, ClsOutcome::Group | ClsOutcome::None);
+                out.lock().unwrap().push((mk(None), cal, None));
+                let mut ks: Vec<u64> = (0..=p.min(10)).collect();
+                if cal_ok {
+                    ks.extend(p.saturating_sub(3)..=p);
+                    let mut r = SplitMix(seeds[i]);
+                    for _ in 0..6 {
+                        if p > 10 {
+                            ks.push(11 + r.below(p - 10));
+                        }
+                    }
+                }
+                ks.sort();
+                ks.dedup();
+                for k in ks {
+                    let c = mk(Some(k));
+                    let r = cls_call(d, cls.threads, cls.use_double, Some(k));
+                    out.lock().unwrap().push((c, r, Some(p)));
+                }
+            });
+        }
+    });
+    let mut slow: Vec<ClsAbortCase> = vec![];
+    for (c, r, p) in out.into_inner().unwrap() {
+        l.case();
+        let Some(p) = p else {
+            l.label("cls:calibration-run");
+            l.label(match r.outcome {
+                ClsOutcome::Group => "cls:calibration:group",
+                ClsOutcome::None => "cls:calibration:none",
+                ClsOutcome::Panic(_) => "cls:calibration:gave-up",
+                ClsOutcome::Hang => "cls:calibration:watchdog",
+            });
+            continue;
+        };
+        if c.cls.threads.unwrap_or(1) > 1 {
+            l.label("cls:threads>1");
+        }
+        if r.lat_ms.is_some() {
+            l.label("cls:abort-fired");
+            l.label(match r.outcome {
+                ClsOutcome::Group => "cls:fired:returned-group",
+                ClsOutcome::None => "cls:fired:returned-none",
+                ClsOutcome::Panic(_) => "cls:fired:panic",
+                ClsOutcome::Hang => "cls:fired:watchdog",
+            });
+            if c.k.unwrap_or(0) < p {
+                l.nontrivial(crate::engine::hash64(&("cls", &c.dabs, c.cls.threads, c.k)));
+                l.sample("cls", || json!({"case": c, "polls_unaborted": p}));
+            }
+        } else {
+            l.label("cls:flip-after-last-poll");
+        }
+        if let Err(f) = cls_judge(&c, &r) {
+            ctx.violation(check, &f, serde_json::to_value(&c).unwrap());
+        }
+        if cls_slow(&r) {
+            slow.push(c);
+        }
+    }
+    for c in slow.into_iter().take(4) {
+        let mut all_slow = true;
+        for _ in 0..2 {
+            match cls_run_case(&c) {
+                Some(r) if cls_slow(&r) => {}
+                _ => {
+                    all_slow = false;
+                    break;
+                }
+            }
+        }
+        if all_slow {
+            ctx.violation(check, &cls_latency_fail(&c), serde_json::to_value(&c).unwrap());
+        } else {
+            l.label("latency-retry-passed");
+        }
+    }
+}
+
 fn long_inputs(quick: bool) -> Vec<FCase> {
     let mut out = vec![];
     let mk = |algo: &str, b1: u32, b2: u32, i: u32, threads: Option<usize>| {
@@ -182,6 +425,9 @@ fn run(ctx: &Ctx) {
          composites (incl. >= 3 prime factors so that the divisor recursion is interrupted) on Qs/Mpqs/Siqs/Ecm/Ecm128/Auto with \
          threads in {None,4}; a calibration run counts the polls P; every k in [0,min(P,64)] and generated k in (64,P] is run. \
          Long inputs (two 95..150-bit primes, un-aborted run takes minutes) with k in 0..=6. The non-polling selectors get k = 0. \
+         Class-group entry point (anchored file src/classgroup.rs): 44..104-bit fundamental discriminants, pool of None/2/4 threads, \
+         calibration then k in [0,min(P,10)], the last instants and generated k; once the predicate has fired the call must return \
+         without panic within the delay. \
          Non-trivial = the predicate flipped while work remained (k < P, or long input); distinct by (n, selector, threads, k).",
     );
     ctx.assume("the abort predicate is monotone (once true, always true), like the deadline used by the only in-tree caller");
@@ -293,14 +539,34 @@ fn run(ctx: &Ctx) {
     let res = exec("opt", &longs, 6, 180.0);
     judge_batch(ctx, &res, 180.0, &mut l, true);
 
+    // ---- the class-group entry point under the same predicate
+    cls_abort(ctx, &mut l);
+
     ctx.merge(l);
+    ctx.essential("cls:abort-fired", 100);
+    ctx.essential("cls:threads>1", 50);
     ctx.essential("flip-while-work-remained", 200);
     ctx.essential("abort-fired", 200);
     ctx.essential("long-input", 20);
     ctx.essential("threads>1", 50);
 }
 
-fn replay(_ctx: &Ctx, _check: &str, case: &Value) -> Result<(), Fail> {
+fn replay(_ctx: &Ctx, check: &str, case: &Value) -> Result<(), Fail> {
+    if check.starts_with("abort-cls") || case.get("cls").is_some() {
+        let c: ClsAbortCase = serde_json::from_value(case.clone()).map_err(|e| Fail::new("HARNESS|bad-replay-file", e.to_string()))?;
+        // thread schedules differ from run to run: a few attempts
+        for _ in 0..(if c.cls.threads.unwrap_or(1) > 1 { 12 } else { 3 }) {
+            let r = cls_run_case(&c).ok_or_else(|| Fail::new("HARNESS|bad-replay-file", "not a fundamental discriminant"))?;
+            cls_judge(&c, &r)?;
+            if cls_slow(&r) {
+                let again = [cls_run_case(&c), cls_run_case(&c)];
+                if again.iter().all(|r| r.as_ref().map(cls_slow).unwrap_or(false)) {
+                    return Err(cls_latency_fail(&c));
+                }
+            }
+        }
+        return Ok(());
+    }
     let c: FCase = serde_json::from_value(case.clone()).map_err(|e| Fail::new("HARNESS|bad-replay-file", e.to_string()))?;
     for _ in 0..3 {
         let r = exec("opt", &[c.clone()], 1, 180.0);
